@@ -153,6 +153,18 @@ class SimFS:
         for c in self._split(path):
             n = n.children.setdefault(c, DirNode())
 
+    def drop_process_state(self):
+        """a killed process loses its descriptors and with them its advisory locks"""
+        def rec(n):
+            n.flock_owner = None
+            if isinstance(n, DirNode):
+                for c in n.children.values():
+                    rec(c)
+        rec(self.root)
+        self.open_raws = []
+        self.fds = {}
+        self.open_writers = {}
+
     def snapshot(self, idmap=None):
         return self.root.clone(idmap)
 
@@ -220,7 +232,8 @@ class SimFS:
             if isinstance(node, DirNode):
                 if writable or not allow_dir:
                     raise IsADirectoryError(errno.EISDIR, "Is a directory", path)
-                raw = SimRaw(self, node, path, True, False, False)   # a directory handle (for fsync / fstat)
+                raw = SimRaw(self, node, path, True, False, False)   # a directory handle (for fsync / fstat / flock)
+                self.open_raws.append(raw)
                 return raw
         truncated = False
         if trunc and len(node.data):
@@ -707,6 +720,17 @@ def install():
     os.fdopen = s_fdopen
 
 
+class _FlockWait:
+    """what a task waiting for an advisory lock is blocked on (the scheduler asks .locked())"""
+
+    def __init__(self, node, raw):
+        self.node, self.raw = node, raw
+
+    def locked(self):
+        o = self.node.flock_owner
+        return o is not None and o is not self.raw
+
+
 def _install_fcntl():
     """advisory locks on simulated descriptors: exclusive only, cooperative waiting under the scheduler"""
     try:
@@ -733,7 +757,7 @@ def _install_fcntl():
             sim = FS.sim
             if sim is None or not sim.is_task():
                 raise OSError(errno.EDEADLK, "simulated flock would block forever")
-            sim.yield_point("fs.flock-wait")
+            sim.block_on(_FlockWait(node, raw))      # not schedulable until the holder lets go
         node.flock_owner = raw
         FS._log(f"flock lock {raw.name}")
 
